@@ -6,6 +6,8 @@ cd /verif/seeded || exit 2
 for d in */; do
   n=${d%/}
   [[ -n "$1" && "$n" != *$1* ]] && continue
+  # (the san-* changes have no behavioural effect; they validate the sanitizer stages, see DESIGN.md 7.13)
+  [[ "$n" == san-* ]] && continue
   # (changes kept as a record although they violate no stated property are skipped)
   python3 -c "import json,sys;m=json.load(open('$n/meta.json'));sys.exit(0 if m['detection']['result'].startswith('NOT A VIOLATION') else 1)" && { echo "$n SKIPPED (not a violation of a stated property)"; continue; }
   props=$(python3 -c "import json;m=json.load(open('$n/meta.json'));print(m['detection']['command'].split('<patch.diff>')[1].strip())")
